@@ -42,7 +42,7 @@ theorem validateMatchedOrder_ok {env : Env} {b : Batch} {o : Ours} {t : Their} {
 
 theorem orderChecks_ok {o : Ours} {cp units : Nat} (h : orderChecks o cp units = .ok ()) :
     (if o.isAsk then o.rate ≤ cp else cp ≤ o.rate) ∧ units ≤ o.unitsUnfulfilled ∧
-    (o.auctionType ≠ Pool.Gen.btcOutboundLiquidity → o.minUnitsMatch ≤ units) := by
+    (o.auctionType ≠ Pool.Gen.Batch.btcOutboundLiquidity → o.minUnitsMatch ≤ units) := by
   unfold orderChecks at h
   split at h <;> try contradiction
   split at h <;> try contradiction
